@@ -43,6 +43,11 @@ var (
 	TokenKeywords = []string{"in", "and", "or", "not", "true", "false", "as", "export"}
 )
 
+// eof is what lexer.next() returns at the end of the input. It must be
+// distinct from every rune that can occur in a template; the exported token
+// type constant EOF (value 1) is not, since 0x01 is a valid input byte.
+const eof rune = -1
+
 type (
 	TokenType int
 	Token     struct {
@@ -168,7 +173,7 @@ func (l *lexer) emit(t TokenType) {
 func (l *lexer) next() rune {
 	if l.pos >= len(l.input) {
 		l.width = 0
-		return EOF
+		return eof
 	}
 	r, w := utf8.DecodeRuneInString(l.input[l.pos:])
 	l.width = w
@@ -265,7 +270,7 @@ func (l *lexer) run() {
 
 				for {
 					switch l.peek() {
-					case EOF:
+					case eof:
 						l.errorf("Single-line comment not closed.")
 						return
 					case '\n':
@@ -305,7 +310,7 @@ func (l *lexer) run() {
 			l.line++
 			l.col = 0
 		}
-		if l.next() == EOF {
+		if l.next() == eof {
 			break
 		}
 	}
@@ -422,7 +427,7 @@ func (l *lexer) stateString() lexerStateFn {
 			default:
 				return l.errorf("Unknown escape sequence: \\%c", l.peek())
 			}
-		case EOF:
+		case eof:
 			return l.errorf("Unexpected EOF, string not closed.")
 		case '\n':
 			return l.errorf("Newline in string is not allowed.")
